@@ -1,3 +1,5 @@
+pub mod catalog;
+pub mod container;
 pub mod pipeline;
 pub mod queue;
 pub mod crash;
